@@ -18,6 +18,8 @@ pub enum Op {
     TListen { h: usize, s: u32, ip: Ip, port: u16 },
     UConnect { h: usize, s: u32, ip: Ip, port: u16 },
     TConnect { h: usize, s: u32, ip: Ip, port: u16 },
+    /// connect, let exactly one round of packets cross the wire, then drop the future
+    TConnectCancel { h: usize, ip: Ip, port: u16 },
     Accept { h: usize, s: u32, ns: u32 },
     Close { h: usize, s: u32 },
     USend { h: usize, s: u32, ip: Ip, port: u16, tag: u32 },
@@ -37,6 +39,7 @@ impl Op {
             Op::TListen { h, s, ip, port } => format!("OP h{h} tlisten s{s} {} {port}", ip.tok()),
             Op::UConnect { h, s, ip, port } => format!("OP h{h} uconnect s{s} {} {port}", ip.tok()),
             Op::TConnect { h, s, ip, port } => format!("OP h{h} tconnect s{s} {} {port}", ip.tok()),
+            Op::TConnectCancel { h, ip, port } => format!("OP h{h} tconnectcancel {} {port}", ip.tok()),
             Op::Accept { h, s, ns } => format!("OP h{h} accept s{s} s{ns}"),
             Op::Close { h, s } => format!("OP h{h} close s{s}"),
             Op::USend { h, s, ip, port, tag } => {
@@ -74,6 +77,7 @@ impl Op {
             "tlisten" => Op::TListen { h: h()?, s: sl(3)?, ip: ip(4)?, port: num(5)? as u16 },
             "uconnect" => Op::UConnect { h: h()?, s: sl(3)?, ip: ip(4)?, port: num(5)? as u16 },
             "tconnect" => Op::TConnect { h: h()?, s: sl(3)?, ip: ip(4)?, port: num(5)? as u16 },
+            "tconnectcancel" => Op::TConnectCancel { h: h()?, ip: ip(3)?, port: num(4)? as u16 },
             "accept" => Op::Accept { h: h()?, s: sl(3)?, ns: sl(4)? },
             "close" => Op::Close { h: h()?, s: sl(3)? },
             "usend" => Op::USend {
@@ -297,6 +301,34 @@ impl World {
                     }
                 }
             }
+            Op::TConnectCancel { h, ip, port } => {
+                if *h >= self.hosts.len() {
+                    return "nohost".into();
+                }
+                self.cur(*h);
+                let mut fut = Box::pin(TcpStream::connect(ip.sa(*port)));
+                match poll_once(fut.as_mut()) {
+                    Poll::Ready(Ok(_)) => return "other:immediate".into(),
+                    Poll::Ready(Err(e)) => {
+                        drop(fut);
+                        let w = self.pump();
+                        return format!("err {} wire={}", err_tok(&e), join(&w, ","));
+                    }
+                    Poll::Pending => {}
+                }
+                // exactly one round: the SYN reaches its destination, the answer stays queued
+                let mut w = Vec::new();
+                let mut out: Vec<Packet> = Vec::new();
+                self.guard.egress_all(&mut out);
+                for p in out.drain(..) {
+                    w.push(pkt_tok(&p));
+                    self.guard.deliver(p);
+                }
+                self.cur(*h);
+                drop(fut);
+                w.extend(self.pump());
+                format!("cancelled wire={}", join(&w, ","))
+            }
             Op::Accept { h, s, ns } => {
                 let Some(Slot::Lsn(hh, l)) = self.slots.get(s) else {
                     return "noslot".into();
@@ -499,6 +531,7 @@ impl Stats {
             Op::TListen { .. } => "tlisten",
             Op::UConnect { .. } => "uconnect",
             Op::TConnect { .. } => "tconnect",
+            Op::TConnectCancel { .. } => "tconnectcancel",
             Op::Accept { .. } => "accept",
             Op::Close { .. } => "close",
             Op::USend { .. } => "usend",
@@ -514,6 +547,8 @@ impl Stats {
         let head: String = obs.split_whitespace().take(2).collect::<Vec<_>>().join("_");
         let key = if head.starts_with("ok") {
             "ok".to_string()
+        } else if head.starts_with("cancelled") {
+            "cancelled".to_string()
         } else if head.starts_with("h") || head.starts_with("reply") {
             if obs.contains("/SA/") {
                 "reply_synack".into()
@@ -561,7 +596,7 @@ fn first_of_family(addrs: &[Ip], v6: bool) -> Option<Ip> {
 }
 
 /// One random bind/connect/close history followed by the probe matrix.
-pub fn gen_table_case(rng: &mut Rng, st: &mut Stats, max_ops: usize, big_cycle: bool) -> Vec<String> {
+pub fn gen_table_case(rng: &mut Rng, st: &mut Stats, max_ops: usize, big_cycle: bool, zombies: bool) -> Vec<String> {
     let tpl = TEMPLATES[rng.below(TEMPLATES.len())];
     let addrs: Vec<Vec<Ip>> = tpl.iter().map(|a| a.to_vec()).collect();
     let mut out = Out { lines: vec![cfg_line(&addrs)] };
@@ -571,6 +606,8 @@ pub fn gen_table_case(rng: &mut Rng, st: &mut Stats, max_ops: usize, big_cycle: 
     let mut next_slot = 1u32;
     let mut next_tag = 1u32;
     let mut conns: Vec<(Ip, u16, Ip, u16)> = Vec::new(); // (client ip, port, server ip, port)
+    let mut mid_sport = 42000u16;
+    let zombie_w: u32 = if zombies { 6 } else { 0 };
 
     let pool = |h: usize, rng: &mut Rng| -> Ip {
         let mut p: Vec<Ip> = addrs[h].clone();
@@ -605,6 +642,8 @@ pub fn gen_table_case(rng: &mut Rng, st: &mut Stats, max_ops: usize, big_cycle: 
             2,
             2,
             2,
+            if lsn_slots.is_empty() { 0 } else { zombie_w },
+            if lsn_slots.is_empty() { 0 } else { zombie_w / 2 },
         ];
         match rng.weighted(&ws) {
             0 => {
@@ -708,8 +747,51 @@ pub fn gen_table_case(rng: &mut Rng, st: &mut Stats, max_ops: usize, big_cycle: 
             8 => {
                 out.step(&mut w, st, Op::Drain);
             }
-            _ => {
+            9 => {
                 out.step(&mut w, st, Op::Netstat);
+            }
+            10 => {
+                // a connect that is abandoned while the handshake is in flight
+                let (ls, lh) = *rng.pick(&lsn_slots);
+                if let Some((_, _, la, _)) = w.info(ls) {
+                    if let Some((lip, lport)) = split_ep(&sa_tok(la)) {
+                        let others: Vec<usize> = (0..nh).filter(|x| *x != lh).collect();
+                        let h = if others.is_empty() { lh } else { *rng.pick(&others) };
+                        let ip = if lip.n != 0 && !lip.is_loopback() {
+                            lip
+                        } else {
+                            first_of_family(&addrs[lh], lip.v6).unwrap_or(lip)
+                        };
+                        out.step(&mut w, st, Op::TConnectCancel { h, ip, port: lport });
+                        if rng.chance(1, 2) {
+                            out.step(&mut w, st, Op::Close { h: lh, s: ls });
+                            let s2 = next_slot;
+                            next_slot += 1;
+                            out.step(&mut w, st, Op::TListen { h: lh, s: s2, ip: lip, port: lport });
+                        }
+                    }
+                }
+            }
+            _ => {
+                // a stray SYN answered by a listener, then reset by its sender
+                let (ls, lh) = *rng.pick(&lsn_slots);
+                if let Some((_, _, la, _)) = w.info(ls) {
+                    if let Some((lip, lport)) = split_ep(&sa_tok(la)) {
+                        let dst = if lip.n != 0 && !lip.is_loopback() { lip } else { first_of_family(&addrs[lh], lip.v6).unwrap_or(lip) };
+                        let src = Ip { v6: dst.v6, n: 90 };
+                        mid_sport += 1;
+                        let obs = out.step(&mut w, st, Op::InjectSyn { src, sport: mid_sport, dst, dport: lport });
+                        if obs.contains("/SA/") {
+                            out.step(&mut w, st, Op::InjectRst { src, sport: mid_sport, dst, dport: lport });
+                            if rng.chance(1, 2) {
+                                out.step(&mut w, st, Op::Close { h: lh, s: ls });
+                                let s2 = next_slot;
+                                next_slot += 1;
+                                out.step(&mut w, st, Op::TListen { h: lh, s: s2, ip: lip, port: lport });
+                            }
+                        }
+                    }
+                }
             }
         }
     }
